@@ -19,7 +19,7 @@
 From Coq Require Import List NArith ZArith Bool Sorted Permutation.
 From Mamba Require Import Dawg.Model Dawg.Tree Dawg.Spec Dawg.SearchModel Dawg.SearchSpec.
 From Mamba Require Import Dawg.SearchPattern Dawg.SearchAnagram Dawg.SearchProofs Dawg.SearchConcrete.
-From Mamba Require Import Dawg.SearchWf Dawg.SearchMain Dawg.SearchCount.
+From Mamba Require Import Dawg.SearchWf Dawg.SearchMain Dawg.SearchCount Dawg.SearchBuilt.
 Import ListNotations.
 
 (* The property for arbitrary searchers under the contract.  For every well-formed Dawg, every
@@ -103,6 +103,28 @@ Theorem C13_search_pattern_anagram : forall s d t, dawg_wf s d t ->
 Proof. exact search_full. Qed.
 Print Assumptions C13_search_pattern_anagram.
 
+(* The property on the Dawgs dawg.New builds, with C12's theorem (LangStore.final_root: the
+   store New returns for a strictly increasing word list unfolds to a well-formed, trimmed tree
+   whose language is the list) discharging the hypothesis: for every strictly increasing word
+   list ws, every list of pattern/anagram searchers and every fuel >= 2 * (total length of the
+   words) + 1, Search on New(ws) never panics, returns twice the same list, leaves the
+   searchers observationally equal to their initial states, and the list is strictly
+   increasing and contains exactly the pairs (w, rank of w in ws) of the words of ws that
+   every searcher's pattern/anagram matches. *)
+Theorem C13_search_built : forall ws s, increasing ws -> new_dawg ws = Ok (Some s) ->
+  forall sps xs, Forall2 built sps xs ->
+  forall fuel, (2 * total_length ws + 1 <= fuel)%nat ->
+  exists res xs1 xs2,
+    search_c fuel s root xs = Ok (res, xs1) /\
+    search_c fuel s root xs1 = Ok (res, xs2) /\
+    Forall2 s_equiv xs1 xs /\ Forall2 s_equiv xs2 xs /\
+    StronglySorted lex_lt (map fst res) /\
+    forall w r, In (w, r) res <->
+      (Forall (fun sp => spec_matches sp w) sps /\
+       rank_of w ws = Some (Z.to_nat r) /\ (0 <= r)%Z).
+Proof. exact search_built. Qed.
+Print Assumptions C13_search_built.
+
 (* The well-formedness hypothesis is decided by an executable check. *)
 Theorem C13_check_wf_sound : forall fuel s d t, check_wf fuel s d = Some t -> dawg_wf s d t.
 Proof. exact check_wf_sound. Qed.
@@ -170,3 +192,12 @@ Example C13_anagram_counting_nonvacuous :
   matches_anagramb [115; 112; 111; 63]%N 63%N [116; 97; 112; 115]%N = false /\
   matches_anagramb [97; 97]%N 97%N [98; 116]%N = true.
 Proof. vm_compute. repeat split. Qed.
+
+(* the hypotheses of C13_search_built on the nine-word example *)
+Example C13_built_nonvacuous :
+  increasing ex_words /\ new_dawg ex_words = Ok (Some ex_store) /\
+  (2 * total_length ex_words + 1 = 41)%nat.
+Proof.
+  split; [|split; [vm_compute; reflexivity|vm_compute; reflexivity]].
+  vm_compute. repeat split.
+Qed.
